@@ -712,6 +712,18 @@ def _variant(rng, temps):
     return v
 
 
+def respell(smiles, k):
+    """Another atom order of the same molecule (deterministic in k)."""
+    try:
+        from rdkit import Chem
+        m = Chem.MolFromSmiles(smiles)
+        if m is None or m.GetNumAtoms() < 2:
+            return None
+        return Chem.MolToRandomSmilesVect(m, 1, randomSeed=k)[0]
+    except Exception:
+        return None
+
+
 _INC = {}
 
 
@@ -757,6 +769,13 @@ def gen_spec(run_seed, tier='quick'):
         mols.append(rng.choice(BAD))
     if any(l.startswith('Fix') for l in libs):
         mols += rng.sample(['CCC', 'CCO', 'CCCO', 'CO', 'CC(C)C', 'COC'], 3)
+    # the same compound written with another atom order (a history may
+    # decompose both spellings with one library object)
+    for m in list(mols):
+        if rng.random() < 0.3:
+            alt = respell(m, rng.randrange(1, 10000))
+            if alt and alt != m:
+                mols.append(alt)
     temps = rng.sample(TEMPS, rng.randrange(2, 6))
     length = rng.randrange(2, 41)
     fault_cfg = rng.random()
